@@ -39,7 +39,7 @@ TrCat0 == [c \in TrCids0 |->
             [size |-> Hdr.cat[c].size, bytes |-> Hdr.cat[c].bytes,
              as |-> [image |-> ConvView(Hdr.cat[c].as.image), index |-> ConvView(Hdr.cat[c].as.index)]]]
 TrPos0 == [r |-> PosOf(Hdr.repos), t |-> PosOf(Hdr.tags), c |-> PosOf(Hdr.cids)]
-TrChars0 == Hdr.chars
+TrChars0 == LET ps == ToSet(Hdr.chars) IN [n \in {p[1] : p \in ps} |-> (CHOOSE p \in ps : p[1] = n)[2]]
 TrRepos == TrRepos0
 TrTags == TrTags0
 TrCids == TrCids0
